@@ -55,6 +55,12 @@ func runCase(h handler, args []string) (out string) {
 }
 
 func main() {
+	// `mg.<op>`: the same implementation-side handler; the driver answers from the regenerated MiniGo program
+	for _, op := range []string{"verdict", "iter.seq", "jobcounter", "dist"} {
+		if h, ok := handlers[op]; ok {
+			handlers["mg."+op] = h
+		}
+	}
 	debug.SetGCPercent(200)
 	in := bufio.NewReaderSize(os.Stdin, 1<<20)
 	out := bufio.NewWriterSize(os.Stdout, 1<<16)
